@@ -3,13 +3,15 @@ from . import poseidon
 from ..runner import Ob
 META = dict(
     functions=['PoseidonGoldilocks::linear_hash_seq', 'linear_hash (AVX2)', 'linear_hash_avx512 (two inputs at a time)'],
-    bounds={'quick': 'input lengths 0..67 (every residue mod 8, both sides of the <=4 pass-through threshold, first/middle/last block positions); all element values', 'thorough': 'lengths 0..131'},
+    bounds={'quick': 'input lengths 0..67 and 255..258, 2047, 2049, 65537, 65545 (every residue mod 8, both sides of the <=4 pass-through threshold, first/middle/last block positions); all element values', 'thorough': 'lengths 0..131'},
     outside=['lengths above the bound (the loop body is the same; no induction over the length is claimed)'], stubs=[],
     assumptions=['hash_full_result* is summarised by an uninterpreted 12->12 permutation PERM (justified by C06); equalities are pure EUF', 'the input object holds exactly the declared number of words, so any over-read is an out-of-bounds event'],
     trusted_base=['reference sponge gv/props/poseidon.py:sponge'])
 def obligations(ctx):
     Lm = 131 if ctx.thorough else 67
-    return [Ob('%s/L%d' % (v, L), poseidon.ob_lh, (v, L), weight=L + 1) for v in ('seq', 'avx', 'avx512') for L in range(0, Lm + 1)]
+    # a few long inputs around the wrap points of narrow counters (8-, 11- and 16-bit element/block counts)
+    extra = [255, 256, 257, 258, 2047, 2049, 65537, 65545] + ([511, 513, 1023, 1025, 4097, 32769, 65535, 131075] if ctx.thorough else [])
+    return [Ob('%s/L%d' % (v, L), poseidon.ob_lh, (v, L), weight=L + 1) for v in ('seq', 'avx', 'avx512') for L in list(range(0, Lm + 1)) + extra]
 def validate(ctx):
     rng = ctx.rng('C07'); n = 0; bad = []
     from .. import core, kern
